@@ -1,4 +1,4 @@
-"""F5 (C01, recorded finding): a transition targeting the machine root exits everything and enters nothing."""
+"""F5 (C01, repaired in /repo b9c3c88): a transition targeting the machine root used to exit everything and enter nothing."""
 from xstate_statemachine import create_machine, MachineLogic, SyncInterpreter
 cfg = {"id": "m", "initial": "a", "states": {"a": {"on": {"RESET": "#m"}}, "b": {}}}
 it = SyncInterpreter(create_machine(cfg, logic=MachineLogic())).start()
